@@ -150,3 +150,52 @@ Lemma radius_F_old_refuted :
   F_same (radius_F_old (F_of_bits (FFin false 4503599627370496 613)) zero) infinity = true
   /\ F_same (radius_F_old (F_of_bits (FFin false 4503599627370496 (-652))) zero) zero = true.
 Proof. vm_compute. split; reflexivity. Qed.
+
+(* ---- the total mapping: every finite (x, y), the symmetry axis included ---------------------------------- *)
+Section Total.
+  Variable sqrtQ : Q -> Q.
+  Hypothesis sqrt_spec : forall s, 0 <= s -> 0 <= sqrtQ s /\ sqrtQ s * sqrtQ s == s.
+
+  Lemma radius_on_axis x y : x == 0 -> y == 0 -> radius sqrtQ x y == 0.
+  Proof.
+    intros Hx Hy. destruct (radius_spec sqrtQ sqrt_spec x y) as [P S].
+    apply sq_nonneg_inj; [assumption | lra |]. rewrite S, Hx, Hy. ring.
+  Qed.
+
+  (* (cos, sin) is a rotation everywhere *)
+  Lemma toroidal_cs_unit xneg x y :
+    let cs := toroidal_cs xneg x y (radius sqrtQ x y) in fst cs * fst cs + snd cs * snd cs == 1.
+  Proof.
+    unfold toroidal_cs. destruct (Qeq_bool (radius sqrtQ x y) 0) eqn:E.
+    - destruct xneg; cbn [fst snd]; ring.
+    - cbn [fst snd]. apply Qeq_bool_neq in E.
+      destruct (radius_spec sqrtQ sqrt_spec x y) as [P S].
+      setoid_replace ((x / radius sqrtQ x y) * (x / radius sqrtQ x y) + (y / radius sqrtQ x y) * (y / radius sqrtQ x y))
+        with ((x * x + y * y) / (radius sqrtQ x y * radius sqrtQ x y)) by (field; assumption).
+      rewrite <- S. field. assumption.
+  Qed.
+
+  (* off the axis the total mapping is the one above; on the axis with x = +0 the wrapped function's vector at
+     (0, z) is returned unrotated, with x = -0 it is turned by half a turn; the length is preserved everywhere *)
+  Lemma vector_axisym_total_off_axis xneg f x y z : ~ (x == 0 /\ y == 0) ->
+    vector_axisym_total sqrtQ xneg f x y z = vector_axisym sqrtQ f x y z.
+  Proof.
+    intros N. unfold vector_axisym_total, vector_axisym, toroidal_cs.
+    pose proof (radius_pos sqrtQ sqrt_spec x y N) as P.
+    destruct (Qeq_bool (radius sqrtQ x y) 0) eqn:E; [apply Qeq_bool_iff in E; lra | reflexivity].
+  Qed.
+
+  Lemma vector_axisym_total_on_axis f x y z : x == 0 -> y == 0 ->
+    veq (vector_axisym_total sqrtQ false f x y z) (f (radius sqrtQ x y) z)
+    /\ (let '(a, b, c) := f (radius sqrtQ x y) z in veq (vector_axisym_total sqrtQ true f x y z) (- a, - b, c)).
+  Proof.
+    intros Hx Hy. pose proof (radius_on_axis x y Hx Hy) as R. apply Qeq_bool_iff in R.
+    unfold vector_axisym_total, toroidal_cs. rewrite R. cbn [fst snd].
+    destruct (f (radius sqrtQ x y) z) as [[a b] c]. unfold rotz, veq. repeat split; ring.
+  Qed.
+
+  Lemma vector_axisym_total_length xneg f x y z :
+    dot (vector_axisym_total sqrtQ xneg f x y z) (vector_axisym_total sqrtQ xneg f x y z)
+    == dot (f (radius sqrtQ x y) z) (f (radius sqrtQ x y) z).
+  Proof. unfold vector_axisym_total. apply rotz_dot. apply (toroidal_cs_unit xneg x y). Qed.
+End Total.
